@@ -672,6 +672,50 @@ impl Bridge for Tagged {
     }
 }
 
+/// later-added fields declared in front of original ones, all deduplicated strings: string ids
+/// follow the declaration order of the fields, the bytes the order of the chunks
+#[derive(BinaryCodec)]
+#[evolution(FieldAdded("owner", Dedup(desert::DeduplicatedString(String::new()))), FieldAdded("watchers", Vec::new()))]
+pub struct Ticket {
+    pub owner: Dedup,
+    pub reporter: Dedup,
+    pub watchers: Vec<Dedup>,
+    pub id: u8,
+    pub summary: Dedup,
+}
+impl Bridge for Ticket {
+    fn ty() -> Ty {
+        Ty::Adt("Ticket".into())
+    }
+    fn register(reg: &mut Registry) {
+        reg.insert(AdtDef::Record(RecordDef {
+            name: "Ticket".into(),
+            option_aware: true,
+            steps: vec![Step::Added("owner".into()), Step::Added("watchers".into())],
+            fields: vec![
+                FieldDef { name: "owner".into(), ty: Ty::DedupStr, transient: None, default: Some(Val::str("")) },
+                field("reporter", Ty::DedupStr),
+                FieldDef { name: "watchers".into(), ty: Ty::vec(Ty::DedupStr), transient: None, default: Some(Val::Seq(vec![])) },
+                field("id", Ty::U8),
+                field("summary", Ty::DedupStr),
+            ],
+        }));
+    }
+    fn to_val(&self) -> Val {
+        Val::Record(vec![self.owner.to_val(), self.reporter.to_val(), self.watchers.to_val(), self.id.to_val(), self.summary.to_val()])
+    }
+    fn from_val(v: &Val) -> Self {
+        let f = v.items();
+        Ticket {
+            owner: Bridge::from_val(&f[0]),
+            reporter: Bridge::from_val(&f[1]),
+            watchers: Bridge::from_val(&f[2]),
+            id: Bridge::from_val(&f[3]),
+            summary: Bridge::from_val(&f[4]),
+        }
+    }
+}
+
 /// a field made optional, another one removed, then the first one removed: the header names the
 /// first field before the second one
 #[derive(BinaryCodec)]
@@ -1066,6 +1110,8 @@ pub fn builtin_catalog() -> Catalog {
         Streamed<u16>, Streamed<String>, Streamed<(u8, String)>, (Streamed<i64>, u8), Vec<Streamed<u32>>,
         Streamed<Point>, Vec<i8>, [i8; 3], LinkedList<i8>, Vec<u32>, BTreeSet<i8>,
         SliceOf<u16>, SliceOf<String>, SliceOf<u8>, SliceOf<i8>, SliceOf<Point>, StrOf, (StrOf, u8), RcSlice<u32>, RcSlice<u8>,
+        SharedStrs, (SharedStrs, u8, SharedStrs), Vec<SharedStrs>, Option<(SharedStrs, String)>,
+        Ticket, Vec<Ticket>, (Ticket, Dedup, Ticket), HashMap<u8, Dedup>, BTreeMap<u8, Dedup>, HashMap<String, Vec<Dedup>>,
         Tagged, Vec<Tagged>, (Tagged, Dedup, Tagged), Tagged2, Vec<Tagged2>, (Tagged2, Tagged, Dedup),
         Priority, Vec<Priority>, (Priority, u8),
         [u16; 64], [i8; 127], [(); 65], [String; 70], [bool; 100], Vec<[u16; 64]>,
